@@ -104,7 +104,7 @@ func kindValues(fd protoreflect.FieldDescriptor) []textVal {
 		return []textVal{tv(protoreflect.ValueOfBool(true), "true"), tv(protoreflect.ValueOfBool(false), "false")}
 	case protoreflect.StringKind:
 		var out []textVal
-		for _, s := range []string{"x", "7", "a.b-c_d~", "é", "Ж9", "a=b", "a+b", "", " ", "/", "&=", "%", "+", "a b", `{"a":1}`, "null", "true", "123", "a/b?c#d", "%41"} {
+		for _, s := range []string{"x", "7", "a.b-c_d~", ".", "..", "...", ".x.", "é", "Ж9", "a=b", "a+b", "", " ", "/", "&=", "%", "+", "a b", `{"a":1}`, "null", "true", "123", "a/b?c#d", "%41"} {
 			out = append(out, tv(protoreflect.ValueOfString(s), s))
 		}
 		return out
@@ -121,6 +121,11 @@ func kindValues(fd protoreflect.FieldDescriptor) []textVal {
 			ev := vals.Get(i)
 			out = append(out, tv(protoreflect.ValueOfEnum(ev.Number()), string(ev.Name()), strconv.Itoa(int(ev.Number()))))
 		}
+		// open enum: a number without a name is kept as it is, up to the int32 bounds
+		if fd.Enum().FullName() == "google.protobuf.NullValue" {
+			return out // proto3-JSON writes every NullValue as null: an unnamed number has no body form
+		}
+		out = append(out, tv(protoreflect.ValueOfEnum(77), "77"), tv(protoreflect.ValueOfEnum(math.MaxInt32), "2147483647"), tv(protoreflect.ValueOfEnum(math.MinInt32), "-2147483648"))
 		return out
 	}
 	return nil
@@ -189,7 +194,8 @@ func invalidTexts(fd protoreflect.FieldDescriptor) []string {
 	case protoreflect.BytesKind:
 		return []string{"!!!!", "a", "@@", "a=b="}
 	case protoreflect.EnumKind:
-		return []string{"NOPE", "1.5", "enum_value"}
+		// incl. numbers beyond the int32 range of an enum number (must not wrap around)
+		return []string{"NOPE", "1.5", "enum_value", "2147483648", "-2147483649", "4294967297", "4294967296", "99999999999999999999", "1x"}
 	case protoreflect.MessageKind:
 		switch fd.Message().FullName() {
 		case "google.protobuf.Timestamp":
